@@ -41,7 +41,7 @@ def ips_write_block_exact_contract(w, block, addr):
     log = w.file.written
     n = len(block)
     off = addr + 0x200 if w._copier_header else addr
-    assume(0 <= off and off + n < 0x1000000)
+    assume(0 <= off and off + n <= 0x1000000)  # the last byte may sit at the top of the 24-bit offset space
     assume(n <= 2 * 0xFFFF + 1)
     assume(off != EOF_OFFSET and off + 0xFFFF != EOF_OFFSET and off + 2 * 0xFFFF != EOF_OFFSET)
     w.write_block(block, addr)
@@ -84,7 +84,7 @@ def ips_write_block_any_length_contract(w, block, addr):
     variant len - k; exit only at k == len.  Hence the records tile the block exactly once, in order."""
     n = len(block)
     off = addr + 0x200 if w._copier_header else addr
-    assume(0 <= off and off + n < 0x1000000)
+    assume(0 <= off and off + n <= 0x1000000)  # the last byte may sit at the top of the 24-bit offset space
     assume(off > EOF_OFFSET or off + n <= EOF_OFFSET)
     ghost("addr0", addr)
     w.write_block(block, addr)
